@@ -560,19 +560,25 @@ def chunk_independence(prop, tier, seed):
         whole = None
         for csize in (1, 2, 3, 5, 1024):
             n += 1
-            it = rbql_csv.CSVRecordIterator(io.BytesIO(data), 'utf-8', ',', 'quoted_rfc', chunk_size=csize)
-            r = (it.get_all_records(), sorted(warn_kinds(it.get_warnings())))
+            try:
+                it = rbql_csv.CSVRecordIterator(io.BytesIO(data), 'utf-8', ',', 'quoted_rfc', chunk_size=csize)
+                r = (it.get_all_records(), sorted(warn_kinds(it.get_warnings())))
+            except Exception as e:        # the reader rejecting (or choking on) valid input for some chunk size is an observed result, not a harness failure
+                r = ('error', type(e).__name__, str(e)[:200])
             if whole is None:
                 whole = r
                 expw = ['bom'] if sample.startswith('﻿') else []
-                if [w for w in r[1] if w == 'bom'] != expw:
+                if r[0] == 'error' or [w for w in r[1] if w == 'bom'] != expw:
                     fails.append({'replay': 'none', 'key': 'bom-warn:%r' % sample, 'expected': expw, 'observed': r[1]})
             elif r != whole:
                 fails.append({'replay': 'none', 'key': 'bytes:%r:%d' % (sample, csize), 'expected': whole, 'observed': r})
     for csize in (1, 2, 3, 1024):
         n += 1
-        it = rbql_csv.CSVRecordIterator(io.BytesIO(b'\xef\xbb\xbfa,b\nc,d\n'), 'latin-1', ',', 'simple', chunk_size=csize)
-        r = (it.get_all_records(), sorted(warn_kinds(it.get_warnings())))
+        try:
+            it = rbql_csv.CSVRecordIterator(io.BytesIO(b'\xef\xbb\xbfa,b\nc,d\n'), 'latin-1', ',', 'simple', chunk_size=csize)
+            r = (it.get_all_records(), sorted(warn_kinds(it.get_warnings())))
+        except Exception as e:
+            r = ('error', type(e).__name__, str(e)[:200])
         if r != ([['a', 'b'], ['c', 'd']], ['bom']):
             fails.append({'replay': 'none', 'key': 'bom-latin1:%d' % csize, 'expected': ([['a', 'b'], ['c', 'd']], ['bom']), 'observed': r})
     # a BOM character that is not at the start of the stream is data
